@@ -37,6 +37,13 @@ fn cfb_uppercase_char(c: char) -> char {
     case_mapper.simple_uppercase(c)
 }
 
+/// Verification hook: exposes the upper-casing function used by
+/// `compare_names`.
+#[cfg(cfb_verif)]
+pub fn verif_uppercase(c: char) -> char {
+    cfb_uppercase_char(c)
+}
+
 /// Compares two directory entry names according to CFB ordering, which is
 /// case-insensitive, and which always puts shorter names before longer names,
 /// as encoded in UTF-16 (i.e. [shortlex
